@@ -391,6 +391,9 @@ def to_vector(c):
                 len(set(labels)) == len(labels)):
             # the theories read the components by position
             c = c.reindex({vector: ['x', 'y', 'z']}, fill_value=0)
+        if c.dtype.kind in 'biu' or (c.dtype.kind == 'f' and
+                                     c.dtype.itemsize < 8):
+            c = c.astype(float)
         norm = np.sqrt((c**2).sum(vector))
         if bool((norm == 1).all()):
             return c
@@ -402,6 +405,9 @@ def to_vector(c):
         return c
 
     c = np.array(c)
+    if c.dtype.kind in 'biu' or (c.dtype.kind == 'f' and c.dtype.itemsize < 8):
+        # the squares of small integers / half floats need not fit the type
+        c = c.astype(float)
     if c.shape == (2,):
         c = np.append(c, 0)
     # normalize
